@@ -51,7 +51,7 @@ PROPS = {
         level='proof',
         explain='MemQueue/MemQueues/MultiRecordLog operations proved against the sequential queue-map spec (QView, LogView) written from the property text, '
                 'over the whole view; range / get_range / position_to_idx / MultiRecord::serialize are bounded Kani stand-ins, never counted as proved.',
-        kani_quick=[], kani_thorough=['K-getrange', 'K-p2i', 'K-range', 'K-mrs'],
+        kani_quick=[], kani_thorough=['K-p2i', 'K-getrange', 'K-mrs'] + ['K-range-%s' % k for k in ('ii', 'ie', 'iu', 'ei', 'ee', 'eu', 'ui', 'ue', 'uu')],
         trusted=['RollingBuffer::get_range (bounded K-getrange)', 'MemQueue::position_to_idx (bounded K-p2i)', 'MemQueue::range (bounded K-range)',
                  'MultiRecord::serialize (bounded K-mrs)', 'HashMap::get_mut (assumed std contract)', 'RollingBuffer::extend'],
         not_decided=['summary, list_queues (iterator adapters over HashMap): unverified', 'MemQueues::range / MultiRecordLog::range one-line pass-throughs'],
